@@ -7,6 +7,7 @@ R3 every constraint column is consulted on the validation path; every node view 
 R4 comparator per column (min_interfaces <, num_interfaces >, num_sites >, num_instances >), each behind != NO_LIMIT;
    required-property test rejects unset values, forbidden-property test rejects set values
 R5 every path to the creation of a service port passes the service guardrails
+R7 the three constraint tables, folded to values, equal the tables pinned in /verif/data/c10_constraints.json
 R6 single-site branch: an undeclared site is set to the inferred one, a declared site is compared with the inferred one
 """
 import ast
@@ -85,6 +86,9 @@ def run(prog, rep):
                         rep.violation('R2', loc(cls.module, cls.assigns[tname]), fqn, f'{pname}: not populated by {reader}',
                                       f'{col} of {key} lists {pname!r} but the sliver the validator builds with {reader} '
                                       f'never has it set: the constraint can never fire')
+
+    rep.rule('R7', 'constraint tables equal the pinned (documented) tables', floor=20)
+    check_pinned_tables(prog, rep, 'R7')
 
     # R3 / R4 on the validation code of the service
     uns = prog.cls(UNS)
@@ -252,33 +256,52 @@ def run(prog, rep):
     ci = uns.methods.get('connect_interface')
     if ci is None:
         raise AnalysisError('connect_interface vanished')
+    ci = inline(prog, uns, ci)
+    cienv = local_env(ci)
     cfg = CFG(ci)
-    guard_nodes = [n for n in cfg.nodes if n.ast is not None and n.kind == 'stmt' and
-                   any(isinstance(c, ast.Call) and call_name(c) == '__service_guardrails' for c in walk_no_nested(n.ast))]
+    dom = cfg.dominators()
+
+    def mentions_enum(node, enum, member):
+        return any(isinstance(x, ast.Attribute) and x.attr == member and isinstance(x.value, ast.Name) and x.value.id == enum for x in ast.walk(node))
+    # the rejection "shared port on an L2PTP service": a raise whose guards say type == L2PTP and interface type == SharedPort
+    guard_tests = []
+    for r_ in walk_no_nested(ci):
+        if not isinstance(r_, ast.Raise):
+            continue
+        _, cs_ = _enclosing(r_, ci)
+        cjs = [cj for c_ in cs_ for cj in conjuncts(canon(expand(c_, cienv)))]
+        l2 = [cj for cj in cjs if isinstance(cj, ast.Compare) and isinstance(cj.ops[0], (ast.Eq, ast.In)) and mentions_enum(cj, 'ServiceType', 'L2PTP')]
+        sh = [cj for cj in cjs if isinstance(cj, ast.Compare) and isinstance(cj.ops[0], (ast.Eq, ast.In)) and mentions_enum(cj, 'InterfaceType', 'SharedPort')]
+        if l2 and sh:
+            guard_tests.append(r_)
     creates = [n for n in cfg.nodes if n.ast is not None and n.kind == 'stmt' and
                any(isinstance(c, ast.Call) and isinstance(c.func, ast.Name) and c.func.id in ('Interface', 'Link')
                    and any(k.arg == 'etype' and 'NEW' in ast.unparse(k.value) for k in c.keywords)
                    for c in walk_no_nested(n.ast))]
     if not creates:
         raise AnalysisError('connect_interface no longer creates the peer Interface/Link in the recognised way')
-    dom = cfg.dominators()
+    rep.instance('R5', f'connect_interface: L2PTP + SharedPort rejection present: {bool(guard_tests)}')
+    if not guard_tests:
+        rep.violation('R5', loc(vmod, ci), 'NetworkService.connect_interface', 'L2PTP/SharedPort rule missing',
+                      'the guardrails no longer refuse a shared port on an L2PTP service (or connect_interface no longer runs them)')
+    # the tests that lead to that rejection are evaluated on every path to the creation of the port / link
+    gtests = set()
+    for r_ in guard_tests:
+        p_ = getattr(r_, '_parent', None)
+        while p_ is not None and p_ is not ci:
+            if isinstance(p_, ast.If):
+                tn = flow.node_of(cfg, p_.test)
+                if tn is not None:
+                    gtests.add(tn.id)
+            p_ = getattr(p_, '_parent', None)
     for cr in creates:
-        rep.instance('R5', f'connect_interface: {norm(cr.ast, 80)} dominated by guardrails')
-        if not any(g.id in dom.get(cr.id, set()) for g in guard_nodes):
+        okd = bool(gtests) and any(g in dom.get(cr.id, set()) for g in gtests)
+        rep.instance('R5', f'connect_interface: {norm(cr.ast, 80)} dominated by guardrails: {okd}')
+        if guard_tests and not okd:
             rep.violation('R5', loc(vmod, cr.ast), 'NetworkService.connect_interface', norm(cr.ast, 100),
                           'a service port / link is created on a path that never ran the service guardrails: '
                           'connect_interface() called directly attaches combinations the service type cannot support '
                           '(e.g. a shared port to an L2PTP service)')
-    # the guardrails still reject L2PTP + SharedPort
-    gr = uns.methods.get('__service_guardrails')
-    if gr is None:
-        raise AnalysisError('__service_guardrails vanished')
-    gtxt = ast.unparse(gr)
-    rep.instance('R5', '__service_guardrails: L2PTP + SharedPort -> raise')
-    if 'ServiceType.L2PTP' not in gtxt or 'InterfaceType.SharedPort' not in gtxt or \
-            not any(isinstance(x, ast.Raise) for x in ast.walk(gr)):
-        rep.violation('R5', loc(vmod, gr), 'NetworkService.__service_guardrails', 'L2PTP/SharedPort rule missing',
-                      'the guardrails no longer refuse a shared port on an L2PTP service')
     # other creators of ServicePorts must go through connect_interface or be peer()/add_interface (substrate API)
     for m, cls, fn in prog.all_functions():
         if not m.name.startswith('fim.user'):
@@ -292,30 +315,112 @@ def run(prog, rep):
                     rep.violation('R5', loc(m, c), fqn, norm(c, 100),
                                   f'{fqn} creates a ServicePort outside connect_interface, bypassing the guardrails')
 
-    # R6 single-site branch
-    branch = None
-    for n in ast.walk(vn):
-        if isinstance(n, ast.If) and ast.unparse(n.test) == 'len(sites) == 1':
-            branch = n
-    if branch is None:
-        raise AnalysisError('single-site branch (len(sites) == 1) not found')
-    res = analyse_single_site(branch.body)
-    rep.instance('R6', f'single-site branch: {res}')
-    if not res['stores_inferred_when_undeclared']:
-        rep.violation('R6', loc(vmod, branch), 'NetworkService.__validate_nstype_constraints', 'inferred site not stored',
+    # R6 site inference / agreement: outcomes (rejections and stores of self.site) over the feasible paths of the function
+    def site_sink(st):
+        if isinstance(st, ast.Raise):
+            return (ast.Constant(value='reject'), ast.Constant(value='reject'))
+        if isinstance(st, ast.Assign) and any(ast.unparse(t) == 'self.site' for t in st.targets):
+            return (ast.Constant(value='store'), st.value)
+        return None
+    try:
+        souts = branch_values(vn.body, site_sink, follow_loops=True, opaque=tuple(site_sets), max_paths=20000)
+    except Unknown as u:
+        raise AnalysisError(f'__validate_nstype_constraints not analysable: {u}')
+
+    def is_inferred(e):
+        return any(isinstance(x, ast.Name) and x.id in site_sets for x in ast.walk(e))
+
+    def one_site(conds):
+        return any(t in conds for ss in site_sets for t in (f'1 == len({ss})', f'len({ss}) == 1'))
+    stores_ok = compares_ok = multi_ok = False
+    for o in souts:
+        kind_ = o.target.value if isinstance(o.target, ast.Constant) else None
+        cs = set(o.conds)
+        if kind_ == 'store' and is_inferred(o.value) and one_site(cs) and 'not self.site' in cs:
+            stores_ok = True
+        if kind_ == 'reject':
+            ne = [n for n in o.cond_nodes if isinstance(n, ast.Compare) and isinstance(n.ops[0], ast.NotEq) and
+                  {'declared' if ctext(x) == 'self.site' else ('inferred' if is_inferred(x) else 'other') for x in (n.left, n.comparators[0])} == {'declared', 'inferred'}]
+            if ne and one_site(cs) and 'self.site' in cs:
+                compares_ok = True
+            limit_rejection = any(isinstance(n, ast.Compare) and isinstance(n.ops[0], ast.Lt) and is_limit(n.left) and is_len_of(n.comparators[0], site_sets | {iparam})
+                                  for n in o.cond_nodes) or any(isinstance(n, ast.Compare) and isinstance(n.ops[0], ast.Lt) and is_limit(n.comparators[0]) for n in o.cond_nodes)
+            if 'self.site' in cs and not one_site(cs) and any(ss in cs for ss in site_sets) and not ne and not limit_rejection:
+                multi_ok = True
+    rep.instance('R6', f'site outcomes: inferred site stored when undeclared={stores_ok}; declared compared with inferred={compares_ok}; multi-site with declared site rejected={multi_ok}')
+    if not stores_ok:
+        rep.violation('R6', loc(vmod, vn), 'NetworkService.__validate_nstype_constraints', 'inferred site not stored',
                       'when no site was declared, validation must record the site inferred from the interfaces')
-    if not res['compares_declared_with_inferred']:
-        rep.violation('R6', loc(vmod, branch), 'NetworkService.__validate_nstype_constraints',
+    if not compares_ok:
+        rep.violation('R6', loc(vmod, vn), 'NetworkService.__validate_nstype_constraints',
                       'declared site is not compared with the inferred site',
-                      'on the path where a site was declared, the rejecting comparison does not involve the site inferred '
-                      'from the connected interfaces (it compares the declared site with itself): a service declared at '
-                      'one site over interfaces of another site validates')
-    multi = [n for n in ast.walk(vn) if isinstance(n, ast.If) and ast.unparse(n.test) == 'self.site' and
-             any(isinstance(x, ast.Raise) for x in n.body)]
-    rep.instance('R6', f'multi-site branch rejects a declared site: {bool(multi)}')
-    if not multi:
+                      'there is no feasible path on which a declared site that differs from the site inferred from the connected '
+                      'interfaces is rejected (the comparison is missing, compares the declared site with itself, or sits behind a '
+                      'condition that excludes declared sites): a service declared at one site over interfaces of another site validates')
+    if not multi_ok:
         rep.violation('R6', loc(vmod, vn), 'NetworkService.__validate_nstype_constraints', 'multi-site with declared site accepted',
                       'a multi-site service with a declared site must be rejected')
+
+
+def _plain(v):
+    """JSON-able form of a folded constant (enum members by name, records as dicts, sets sorted)"""
+    if hasattr(v, 'enum') and hasattr(v, 'name'):
+        return f'{v.enum}.{v.name}'
+    if isinstance(v, dict):
+        return {str(_plain(k)): _plain(x) for k, x in v.items()}
+    if isinstance(v, (list, tuple)):
+        return [_plain(x) for x in v]
+    if isinstance(v, (set, frozenset)):
+        return sorted(str(_plain(x)) for x in v)
+    if isinstance(v, (str, int, float, bool)) or v is None:
+        return v
+    return repr(v)
+
+
+TABLES = [('fim.slivers.network_service:NetworkServiceSliver', 'ServiceConstraints'),
+          ('fim.slivers.network_node:NodeSliver', 'NodeConstraints'),
+          ('fim.slivers.network_link:NetworkLinkSliver', 'LinkConstraints')]
+
+
+def constraint_tables_as_json(prog):
+    out = {}
+    for spec, tname in TABLES:
+        cls = prog.cls(spec)
+        tbl = _plain(prog.class_const(cls, tname))
+        # the free-text description of an entry is not a constraint
+        out[tname] = {k: ({c: v for c, v in rec.items() if c != 'desc'} if isinstance(rec, dict) else rec) for k, rec in tbl.items()}
+    return out
+
+
+def check_pinned_tables(prog, rep, rule):
+    """The documented per-type constraints are the tables as pinned under /verif/data; an edit to a table entry is reported
+    with the entry and column (values are compared after folding, so reformatting the source is invisible)."""
+    import json
+    import os
+    ref_path = os.path.join(os.path.dirname(os.path.dirname(os.path.dirname(os.path.abspath(__file__)))), 'data', 'c10_constraints.json')
+    if not os.path.exists(ref_path):
+        raise AnalysisError('pinned constraint tables (data/c10_constraints.json) missing')
+    with open(ref_path) as f:
+        ref = json.load(f)
+    cur = constraint_tables_as_json(prog)
+    for spec, tname in TABLES:
+        cls = prog.cls(spec)
+        r, c = ref.get(tname, {}), cur.get(tname, {})
+        for key in sorted(set(r) | set(c)):
+            rep.instance(rule, f'{tname}[{key}] equals the pinned entry: {r.get(key) == c.get(key)}')
+            if key not in c:
+                rep.violation(rule, loc(cls.module, cls.assigns[tname]), f'{cls.name}.{tname}', f'{key}: entry removed', f'the constraint entry for {key} was removed')
+            elif key not in r:
+                rep.violation(rule, loc(cls.module, cls.assigns[tname]), f'{cls.name}.{tname}', f'{key}: entry not in the pinned table',
+                              f'a constraint entry for {key} was added that the pinned (documented) table does not have; re-pin with tools/pin_constraints.py if intended')
+            elif r[key] != c[key]:
+                cols = sorted(k2 for k2 in set(r[key]) | set(c[key]) if r[key].get(k2) != c[key].get(k2)) if isinstance(r[key], dict) and isinstance(c[key], dict) else ['value']
+                for col in cols:
+                    was = r[key].get(col) if isinstance(r[key], dict) else r[key]
+                    now = c[key].get(col) if isinstance(c[key], dict) else c[key]
+                    rep.violation(rule, loc(cls.module, cls.assigns[tname]), f'{cls.name}.{tname}', f'{key}.{col}: {was!r} -> {now!r}',
+                                  f'the documented constraint {col} of {key} is {was!r}; the table now says {now!r}: validation accepts / rejects '
+                                  f'other topologies than documented')
 
 
 def _ancestors(node, fn):
